@@ -361,6 +361,12 @@ def items(tier: str, seed: int) -> List[Dict[str, Any]]:
     out: List[Dict[str, Any]] = []
     for eng in (0, 1):
         for k1 in KINDS:
+            if eng == 0 and k1 in BATCH:
+                # the batch stimuli triple the schedule: one item per second stimulus
+                for k2 in KINDS:
+                    out.append({"ob": "after_schedule", "params": {"eng": eng, "k1": k1, "k2": k2}, "timeout": 400 if quick else 1500,
+                                "path_timeout": 40, "label": f"after_schedule[sync,{k1},{k2}]"})
+                continue
             if eng == 0:
                 out.append({"ob": "after_schedule", "params": {"eng": eng, "k1": k1}, "timeout": 400 if quick else 1500,
                             "path_timeout": 40, "label": f"after_schedule[sync,first={k1}]"})
